@@ -131,7 +131,15 @@ func c06Read(c *Ctx) {
 		if c.Guard("read/"+name, func() {
 			switch name {
 			case "ReadFrom":
-				n, err = dst.ReadFrom(bytes.NewReader(buf))
+				if r.Chance(0.5) {
+					n, err = dst.ReadFrom(bytes.NewReader(buf))
+				} else {
+					src := sourceZoo(r, buf)
+					c.Step("source: %s", src.name)
+					c.Count("source_" + src.name)
+					n, err = dst.ReadFrom(src.rd)
+					src.done()
+				}
 			case "FromBuffer":
 				n, err = dst.FromBuffer(buf)
 			default:
